@@ -10,3 +10,10 @@ reg("C17", [mon("rt", "mon_graphalg")],
 import glob as _glob, importlib as _importlib, os as _os
 for _f in sorted(_glob.glob(_os.path.join(_os.path.dirname(__file__), "props_*.py"))):
     _importlib.import_module("vlib." + _os.path.basename(_f)[:-3])
+
+for _pid, _lst in EXTRA_STAGES.items():
+    if _pid not in PROPS:
+        continue  # the primary registration is missing: the property stays unclaimed
+    for _st, _as in _lst:
+        PROPS[_pid]["stages"].append(_st)
+        PROPS[_pid]["assumptions"] += _as
